@@ -516,6 +516,13 @@ class Repo:
     def is_dataclass(self, c: ClassInfo) -> bool:
         return any(_deco_name(d) == "dataclass" for d in c.node.decorator_list)
 
+    def is_namedtuple(self, c: ClassInfo) -> bool:
+        """`class X(NamedTuple)` (typing): instances are tuples of the annotated names of the class body, in order"""
+        return any((dotted(b) or "").split(".")[-1] == "NamedTuple" for b in c.node.bases)
+
+    def namedtuple_fields(self, c: ClassInfo) -> List[Tuple[str, Optional[ast.AST], ClassInfo]]:
+        return [(n, c.attrs[n][1], c) for n in c.attr_order if c.attrs[n][0] is not None and dotted(c.attrs[n][0]) not in ("ClassVar", "typing.ClassVar")]
+
     def dataclass_fields(self, c: ClassInfo) -> List[Tuple[str, Optional[ast.AST], Optional[ast.AST], ClassInfo]]:
         """Ordered (name, annotation, default, defining class) as dataclasses computes them."""
         fields: Dict[str, Tuple] = {}
